@@ -9,6 +9,8 @@ the next event.  Reader tasks stamp every received message with the logical step
   M2  the state told to a fresh probe connection afterwards is >= every state whose transition was acknowledged
   M3  the probe's search is answered from the acknowledged index; at most one index was ever acknowledged
   M4  the probe connection is accepted (init echo) and the service is not bricked
+  M5  (a third of the schedules) a served connection on ANOTHER service id exists meanwhile: closing it mid-schedule
+      must not admit a waiter of this service, and this service's closes must not admit a newcomer to the other one
 """
 import asyncio
 import itertools
@@ -118,26 +120,50 @@ class Scheduler:
                 if gate.release_all():
                     await asyncio.sleep(SETTLE)
 
-    async def run(self, scripts, order, policy):
-        """order: list of connection indices; the k-th occurrence of j fires j's k-th event (open, requests.., close)."""
+    async def run(self, scripts, order, policy, bystander=None):
+        """order: list of connection indices; the k-th occurrence of j fires j's k-th event (open, requests.., close).
+        bystander: None | "hold" | "close@k" - a connection on ANOTHER service id that is open (and served) before the
+        schedule starts; "close@k" closes it just before event k, "hold" keeps it open to the end, where a second
+        connection to that other service must still be made to wait (M1 for the other service)."""
         acc, fx = self.acc, self.fx
         self.n += 1
         acc.count("cases")
         acc.count("policy." + policy)
         sid = "%064x" % (self.ctx.rng.getrandbits(255) + 1)
+        other_sid = sid[:-2] + ("%02x" % ((int(sid[-2:], 16) + 1) % 256))
+        by = by2 = None
+        by_close_at = None
+        if bystander:
+            acc.count("bystander." + bystander.split("@")[0])
+            if "@" in bystander:
+                by_close_at = int(bystander.split("@")[1])
         proxy = self.server.env["proxy"]
         gate = wh.Gate()
         proxy.gate = gate
         conns = [Conn(j, s) for j, s in enumerate(scripts)]
         self.t = 0
-        case = {"scripts": [list(s) for s in scripts], "order": list(order), "gate_policy": policy}
+        case = {"scripts": [list(s) for s in scripts], "order": list(order), "gate_policy": policy,
+                "bystander": bystander}
         history = []
         pos = [0] * len(conns)
         max_open = 0
         opened_order = []
         lagged = 0
         try:
-            for j in order:
+            if bystander:
+                by = wh.RawConn(self.server.uri, other_sid)
+                await by.open(5)
+                await by.send("config", pickle.dumps(fx.cfg))
+                ev = await by.next_event(5)
+                if not (ev[0] == "msg" and wh.decode_reply(ev[1])[1] == "ok"):
+                    acc.note(f"bystander configuration not acknowledged: {str(ev)[:80]}")
+                history.append((0, "bystander-open+config"))
+            for n_ev, j in enumerate(order):
+                if by is not None and by_close_at == n_ev:
+                    await by.close()
+                    history.append((self.t, "bystander-close"))
+                    by = None
+                    await self.settle(gate, policy)
                 self.t += 1
                 c = conns[j]
                 k = pos[j]
@@ -187,6 +213,31 @@ class Scheduler:
                         await asyncio.sleep(SETTLE)
                     lagged = gate.pending()
                 max_open = max(max_open, sum(1 for x in conns if x.open_step and not x.is_closed))
+            # ---- the other service: its open connection must still make a newcomer wait
+            if by is not None:
+                by2 = wh.RawConn(self.server.uri, other_sid)
+                await by2.open(5)
+                await by2.send("token", fx.token, token_digest=b"b")
+                for _ in range(3):
+                    await asyncio.sleep(SETTLE)
+                    if gate.release_all():
+                        await asyncio.sleep(SETTLE)
+                acc.count("bystander_waiter_probes")
+                try:
+                    ev = await by2.next_event(0.03)
+                    acc.violation("overlap:reply-while-earlier-connection-open:other-service",
+                                  f"a second connection to ANOTHER service got {ev[0]} "
+                                  f"{wh.decode_reply(ev[1])[:2] if ev[0] == 'msg' else ev[1]} while that service's first "
+                                  f"connection, opened before the schedule, was still open",
+                                  dict(case, history=history, logs=[x.log for x in conns]))
+                    return
+                except wh.Timeout:
+                    pass
+                if not by2.controls:
+                    acc.count("bystander_waiter_without_control")
+                await by.close()
+                await by2.close()
+                by = by2 = None
             # ---- end of the schedule: close everything, let every cleanup run
             self.t += 1
             for c in conns:
@@ -306,6 +357,9 @@ class Scheduler:
         finally:
             proxy.gate = None
             gate.release_all()
+            for b in (by, by2):
+                if b is not None:
+                    await b.close()
             for c in conns:
                 if c.ws is not None:
                     try:
@@ -354,11 +408,14 @@ async def amain(spec, acc, ctx):
             scripts = [SCRIPTS[a], SCRIPTS[b]]
             for n, order in enumerate(interleavings([len(s) + 2 for s in scripts])):
                 pols = spec["policies"] or [POLICIES[(n + a + b) % 4], POLICIES[(n + a + b + 2) % 4]]
-                for policy in pols:
+                for pi, policy in enumerate(pols):
                     if stop():
                         done = False
                         break
-                    await retry_on_timeout(acc, lambda: sch.run(scripts, order, policy))
+                    bys = None
+                    if policy != "end" and pi == 0 and n % 4 == 0:
+                        bys = "hold" if n % 8 == 0 else f"close@{(n // 8) % len(order)}"
+                    await retry_on_timeout(acc, lambda: sch.run(scripts, order, policy, bys))
         if done:
             acc.add("two_conn_script_pairs_done", len(spec["pairs"]))
         else:
@@ -401,7 +458,10 @@ async def amain(spec, acc, ctx):
                 order.remove(0)
                 order.insert(0, 0)
             pol = rng.choice(POLICIES)
-            await retry_on_timeout(acc, lambda: sch.run(scripts, order, pol))
+            bys = None
+            if pol != "end" and w % 3 == 1:
+                bys = rng.choice(["hold", f"close@{rng.randrange(len(order))}"])
+            await retry_on_timeout(acc, lambda: sch.run(scripts, order, pol, bys))
             acc.count("three_conn_walks")
     await server.stop()
 
@@ -414,7 +474,8 @@ def replay(case, acc, ctx):
     async def go():
         wh.setup_env()
         server = await wh.Server().start()
-        await Scheduler(acc, ctx, server, Fixture()).run(case["scripts"], case["order"], case["gate_policy"])
+        await Scheduler(acc, ctx, server, Fixture()).run(case["scripts"], case["order"], case["gate_policy"],
+                                                         case.get("bystander"))
         await server.stop()
     asyncio.run(go())
     acc.count("replayed")
@@ -454,6 +515,9 @@ def finish(m, tier, seed):
         "probe_connections": c.get("probes", 0),
         "probe_searches": c.get("probe_searches", 0),
         "gate_policies": {p: c.get("policy." + p, 0) for p in POLICIES},
+        "schedules_with_a_served_connection_on_another_service": {
+            "held_to_the_end": c.get("bystander.hold", 0), "closed_mid_schedule": c.get("bystander.close", 0),
+            "newcomer_to_the_other_service_kept_waiting": c.get("bystander_waiter_probes", 0)},
         "three_connection_walks": c.get("three_conn_walks", 0),
         "three_connection_interleavings_enumerated": c.get("three_conn_exhaustive_interleavings", 0),
     }
